@@ -225,6 +225,8 @@ def run_job(job, keep=True, trace=False):
 
 
 def label_of(job, cbmc_id, desc):
+    if re.match(r'^C\d\d/', desc or ''):
+        return desc.split(' ')[0]
     for pat, lab in job.labels.items():
         if pat == cbmc_id or (pat.startswith('re:') and re.search(pat[3:], cbmc_id + ' ' + desc)):
             return lab
@@ -278,6 +280,7 @@ class Report:
         self.jobs = []
         self.notes = {}
         self.solver = {}
+        self.known_excluded = 0
         if os.path.isdir(REPLAYS):
             for fn in os.listdir(REPLAYS):
                 if fn.startswith(prop + '_'): os.remove(os.path.join(REPLAYS, fn))
@@ -321,6 +324,7 @@ class Report:
             else:
                 kinds['language_safety'] += 1
         cov = dict(obligations=self.n_obl(), discharged=self.n_ok(), checker_cmd=checker_cmd, obligation_kinds=kinds,
+                   known_finding_obligations_not_counted=self.known_excluded,
                    canaries_failed_as_required=sum(len(j.get('canaries', [])) for j in self.jobs),
                    trusted_base=trusted_base,
                    samples=samples or [o['label'] + ' [' + o['cbmc_id'] + ']' for o in self.obligations[:12]],
@@ -446,6 +450,13 @@ def triage(rep, results, info=None, replayer=None):
             if lab == pid: lab = generic_label(prop, r.job, pid)
             if lab in seen: continue
             seen.add(lab)
+            kf = [k for k in known if k.get('label') == lab and k.get('input_free')]
+            if kf:
+                # the obligation has no free input (e.g. the state of a default-constructed object): the label is the witness
+                rep.known.append('%s - %s' % (lab, kf[0].get('what', '')))
+                rep.obligations = [o for o in rep.obligations if not (o['job'] == r.job.name and o['label'] == lab)]
+                rep.known_excluded += 1
+                continue
             vals, out = traces.get(r.job.name, ({}, r.output))
             tail = '\n'.join([l for l in out.splitlines() if 'FAILURE' in l][:40])
             data = dict(property=prop, obligation=lab, cbmc_property=pid, description=desc, job=r.job.name,
